@@ -206,9 +206,16 @@ Section C16HevcParsers.
     c <- rd_flag R ;; u3 <- (if c then four_ue else ret tt) ;;
     ret tt.
 
+  (* r.Read(n) for a width n that hostile values can push to 2^63: more bits than the whole NAL unit has (fuel =
+     8 * |nalu| + 10) cannot be read; Go's loop `for r.n < n` then consumes what is left, meets EOF, sets the
+     accumulated error and returns 0.  The model says so directly instead of iterating over n / 8 absent bytes
+     (the C13 reader model takes its fuel, a unary number, from n). *)
+  Definition rd_wide (n : N) : @M St N :=
+    if N.of_nat fuel <? n then u <- set_err R ;; ret 0 else rd R n.
+
   (* CodedRes[c]: res_coeff_q ue(v), res_coeff_r u(resLsBits), res_coeff_s if one of them is non-zero *)
   Definition hoct_coeff (res_ls_bits : N) : @M St unit :=
-    q <- rd_ue R ;; r <- rd R res_ls_bits ;;
+    q <- rd_ue R ;; r <- rd_wide res_ls_bits ;;
     if negb (q =? 0) || negb (r =? 0) then x <- rd_flag R ;; ret tt else ret tt.
   Definition hoct_entry (res_ls_bits : N) : @M St unit :=
     f <- rd_flag R ;; if f then l <- rep 3 (hoct_coeff res_ls_bits) ;; ret tt else ret tt.
